@@ -1,6 +1,5 @@
 /- C08 lemmas, top level: bridges between histories of the model and of the abstract machine. -/
-import OsmoVerif.Lemmas.TdmaSchedOps
-import OsmoVerif.Lemmas.TdmaSchedSpec
+import OsmoVerif.Lemmas.TdmaSchedExec
 
 set_option linter.unusedVariables false
 
@@ -141,5 +140,115 @@ theorem placed_ne (x : AItem Cb) (rest : List Op)
   obtain ⟨o, ho, rfl⟩ := List.mem_map.mp hop
   subst hx
   exact hother o ho hit
+
+/-! ### following one item through a history with callbacks that schedule on the fly -/
+
+/-- One operation.  If none of the calls made from inside during this operation places `x`
+(`hfly`, a statement about what happened: `flyOps env out`), the operation moves and runs `x` like the
+abstract machine does. -/
+theorem step_track_model (env : Env) (s : Sched) (op : Op) (x : AItem Cb) (pos : Option Nat)
+    (hinv : Inv env s) (henv : EnvOk env) (hop : OpOk env op) (hat : Spec.TdmaSched.At x (abs s) pos)
+    (hx : ∀ it ∈ Spec.TdmaSched.placed (absOp op), it ≠ x) :
+    ∃ s' out, step env s op = .ok (s', out) ∧ Inv env s' ∧
+      ((∀ c ∈ flyOps env out, ∀ it ∈ Spec.TdmaSched.placed c, it ≠ x) →
+        Spec.TdmaSched.At x (abs s') (Spec.TdmaSched.trackStep pos (absOp op)).1 ∧
+        ranCount x out = (Spec.TdmaSched.trackStep pos (absOp op)).2) := by
+  obtain ⟨s', out, h1, hi, hex, hnex⟩ := step_spec env s op hinv henv hop
+  refine ⟨s', out, h1, hi, ?_⟩
+  intro hfly
+  by_cases he : op = .execute
+  · subst he
+    obtain ⟨_, _, hx'⟩ := hex rfl
+    exact Spec.TdmaSched.execOnTheFly_track (absScr env) (abs s) (abs s') _ _ x pos (absScr_isCall env) hx'
+      hat hfly
+  · obtain ⟨hr, _, ha, _⟩ := hnex he
+    obtain ⟨t1, t2⟩ := Spec.TdmaSched.step_track x (abs s) pos (absOp op) hat hx
+    rw [ha]
+    refine ⟨t1, ?_⟩
+    rw [← t2]
+    simp only [ranCount, hr, List.map_nil, List.count_nil]
+    cases op with
+    | execute => exact absurd rfl he
+    | schedule off cb p1 p2 p3 prio => simp [absOp, Spec.TdmaSched.step]
+    | scheduleSet off set p3 => simp [absOp, Spec.TdmaSched.step]
+    | advance => simp [absOp, Spec.TdmaSched.step]
+    | reset => simp [absOp, Spec.TdmaSched.step]
+
+/-- Whole histories: the number of times each operation runs `x`, provided no operation and no call
+made from inside during the history places `x`. -/
+theorem run_track_model (env : Env) (henv : EnvOk env) (x : AItem Cb) : ∀ (ops : List Op) (s : Sched)
+    (pos : Option Nat), Inv env s → (∀ op ∈ ops, OpOk env op) → Spec.TdmaSched.At x (abs s) pos →
+    (∀ op ∈ ops, ∀ it ∈ Spec.TdmaSched.placed (absOp op), it ≠ x) →
+    ∃ s' outs, run env s ops = .ok (s', outs) ∧ Inv env s' ∧
+      ((∀ o ∈ outs, ∀ c ∈ flyOps env o, ∀ it ∈ Spec.TdmaSched.placed c, it ≠ x) →
+        outs.map (ranCount x) = Spec.TdmaSched.track pos (ops.map absOp))
+  | [], s, pos, hinv, _, _, _ => ⟨s, [], rfl, hinv, fun _ => rfl⟩
+  | op :: ops, s, pos, hinv, hops, hat, hx => by
+    obtain ⟨s1, o, h1, hi1, ht1⟩ := step_track_model env s op x pos hinv henv (hops op (List.mem_cons_self ..))
+      hat (hx op (List.mem_cons_self ..))
+    cases h2 : run env s1 ops with
+    | error f =>
+      obtain ⟨s', outs, h2', _⟩ := run_safe env henv ops s1 hi1 (fun y hy => hops y (List.mem_cons_of_mem _ hy))
+      rw [h2] at h2'; exact absurd h2' (by simp)
+    | ok res =>
+      obtain ⟨s', outs⟩ := res
+      obtain ⟨s'', outs', h2', hi2⟩ := run_safe env henv ops s1 hi1 (fun y hy => hops y (List.mem_cons_of_mem _ hy))
+      rw [h2] at h2'
+      simp only [Except.ok.injEq, Prod.mk.injEq] at h2'
+      obtain ⟨e1, e2⟩ := h2'
+      subst e1; subst e2
+      refine ⟨s', o :: outs, by simp only [run, bind, Except.bind, h1, h2]; rfl, hi2, ?_⟩
+      intro hfly
+      obtain ⟨hat1, hc1⟩ := ht1 (hfly o (List.mem_cons_self ..))
+      obtain ⟨s3, outs3, h3, _, ht3⟩ := run_track_model env henv x ops s1 _ hi1
+        (fun y hy => hops y (List.mem_cons_of_mem _ hy)) hat1 (fun y hy => hx y (List.mem_cons_of_mem _ hy))
+      rw [h2] at h3
+      simp only [Except.ok.injEq, Prod.mk.injEq] at h3
+      obtain ⟨e1, e2⟩ := h3
+      subst e1; subst e2
+      simp only [List.map_cons, Spec.TdmaSched.track, hc1]
+      rw [ht3 (fun o' ho' => hfly o' (List.mem_cons_of_mem _ ho'))]
+
+/-- callbacks that do not re-enter: nothing is scheduled from inside -/
+theorem flyOps_noReentry (env : Env) (h : NoReentry env) (o : Out) : flyOps env o = [] := by
+  simp only [flyOps]
+  apply List.flatMap_eq_nil_iff.mpr
+  intro y _
+  exact absScr_noReentry env h y
+
+/-- no call made from inside during the history `outs` places `x` (a fact about what happened) -/
+def NoFlyPlaces (env : Env) (x : AItem Cb) (outs : List Out) : Prop :=
+  ∀ o ∈ outs, ∀ c ∈ flyOps env o, x ∉ Spec.TdmaSched.placed c
+
+instance (env : Env) (x : AItem Cb) (outs : List Out) : Decidable (NoFlyPlaces env x outs) := by
+  unfold NoFlyPlaces; infer_instance
+
+theorem placed_ne_ops (x : AItem Cb) (ops : List Op)
+    (hother : ∀ op ∈ ops, x ∉ Spec.TdmaSched.placed (absOp op)) :
+    ∀ op ∈ ops, ∀ it ∈ Spec.TdmaSched.placed (absOp op), it ≠ x := by
+  intro op hop it hit hx
+  subst hx
+  exact hother op hop hit
+
+theorem placed_ne_fly (env : Env) (x : AItem Cb) (outs : List Out) (h : NoFlyPlaces env x outs) :
+    ∀ o ∈ outs, ∀ c ∈ flyOps env o, ∀ it ∈ Spec.TdmaSched.placed c, it ≠ x := by
+  intro o ho c hc it hit hx
+  subst hx
+  exact h o ho c hc hit
+
+/-- `cur_bucket` after a history: the start position plus the number of advances, modulo the ring size —
+for histories of any length (the `uint8_t` never sees a value above 24) -/
+theorem run_cur (env : Env) (henv : EnvOk env) : ∀ (ops : List Op) (s : Sched), Inv env s →
+    (∀ op ∈ ops, OpOk env op) →
+    ∃ s' outs, run env s ops = .ok (s', outs) ∧ Inv env s' ∧
+      s'.cur = (s.cur + ops.countP isAdvOp) % 25
+  | [], s, hinv, _ => ⟨s, [], rfl, hinv, by have := hinv.1.2.1; simp; omega⟩
+  | op :: ops, s, hinv, hops => by
+    obtain ⟨s1, o, h1, hi1, _, _⟩ := step_spec env s op hinv henv (hops op (List.mem_cons_self ..))
+    have hc1 := step_cur env s op hinv henv (hops op (List.mem_cons_self ..)) s1 o h1
+    obtain ⟨s', outs, h2, hi2, hc2⟩ := run_cur env henv ops s1 hi1 (fun y hy => hops y (List.mem_cons_of_mem _ hy))
+    refine ⟨s', o :: outs, by simp only [run, bind, Except.bind, h1, h2]; rfl, hi2, ?_⟩
+    rw [hc2, hc1, List.countP_cons]
+    cases op <;> simp [isAdvOp] <;> omega
 
 end OsmoVerif.TdmaSched
